@@ -72,6 +72,23 @@ def generate(src, strip_comments, fn_body, header):
         lines.append("    cursor: %s. -/" % ("the slot (`scan_slot`, FNV-1a 64 >> 11) of the next element in the order of (slot, name)" if use_slot
                                         else "a rank in the list sorted by name"))
         lines.append("def scanCfg : Ferrous.Scan.Cfg := ⟨%d, %d, %d, %s, %s⟩" % (d, c, f, "true" if lossy[0] else "false", "true" if use_slot else "false"))
+    # the `[` arm of pattern_matches: Redis's stringmatchlen walk (member by member) or the old "find the first ]" scan
+    pm_body = fn_body(text, "pattern_matches") or ""
+    redis_walk = bool(re.search(r"pattern_chars\[i\]\s*==\s*b'\\\\'\s*&&\s*i\s*\+\s*1\s*<\s*pattern_chars\.len\(\)", pm_body)
+                      and re.search(r"else\s+if\s+pattern_chars\[i\]\s*==\s*b'\]'\s*\{\s*i\s*\+=\s*1\s*;\s*break\s*;", pm_body)
+                      and re.search(r"i\s*\+\s*2\s*<\s*pattern_chars\.len\(\)\s*&&\s*pattern_chars\[i\s*\+\s*1\]\s*==\s*b'-'", pm_body)
+                      and re.search(r"pattern_chars\[i\]\.min\(pattern_chars\[i\s*\+\s*2\]\)\s*,\s*pattern_chars\[i\]\.max\(pattern_chars\[i\s*\+\s*2\]\)", pm_body)
+                      and re.search(r"let\s+negate\s*=\s*i\s*<\s*pattern_chars\.len\(\)\s*&&\s*pattern_chars\[i\]\s*==\s*b'\^'", pm_body)
+                      and re.search(r"if\s+matched\s*!=\s*negate\s*\{\s*p_idx\s*=\s*i\s*;", pm_body))
+    first_bracket = bool(re.search(r"position\(\|&c\|\s*c\s*==\s*b?'\]'\)", pm_body))
+    if redis_walk and not first_bracket:
+        lines.append("/-- the `[` arm of `pattern_matches` walks the class member by member as Redis's stringmatchlen does. -/")
+        lines.append("def globClassRedis : Bool := true")
+    elif first_bracket and not redis_walk:
+        lines.append("/-- the `[` arm of `pattern_matches` closes the class at the first `]` (the matcher before d22f9c4). -/")
+        lines.append("def globClassRedis : Bool := false")
+    else:
+        lines.append('def globClassRedis : Bool := extraction_failed "the class arm of pattern_matches is not recognised"')
     if None in rank:
         lines.append('def scanCursorIsRank : Bool := extraction_failed "scan/hscan/sscan/zscan not found"')
     else:
